@@ -380,6 +380,10 @@ func (es *SearchEngineState) MATCHRANGE(from string, to string, not bool) {
 
 	for i := max; i >= min; i-- {
 		value := es.READ(i)
+		if value == "" {
+			// fewer than i bytes are left: `not` must not succeed on nothing
+			continue
+		}
 		if (from <= value && value <= to && !not) || ((from > value || value > to) && not) {
 			es.CONSUME(i)
 			es.NEXT()
@@ -393,6 +397,10 @@ func (es *SearchEngineState) MATCHRANGE(from string, to string, not bool) {
 func (es *SearchEngineState) MATCHLETTER(not bool) {
 	// TODO I would prefer if I had a generic way to do these multirange searches
 	value := es.READ(1)
+	if value == "" {
+		es.BACKTRACK()
+		return
+	}
 	if ("a" <= value && value <= "z") || ("A" <= value && value <= "Z") {
 		if not {
 			es.BACKTRACK()
